@@ -157,7 +157,16 @@ def run_unit(ex, H, unit, res):
         res['obligations'] += 1
         if outcome == 'arp-failed':
             if sends:
-                raise SpecViolation('task:sent-although-next-hop-unresolved', 'the next hop could not be resolved but the datagram was put on the wire anyway (a frame without a resolved destination is a broadcast)')
+                # witness for the simulation-level replay: prefer ordinary unicast addresses that are pairwise different (any model of the path
+                # condition is a counterexample; an unnatural one - destination equal to one of the router's own addresses, 0.0.0.0 ... - only
+                # makes the replay topology meaningless)
+                specials = [U32(0), U32(0xffffffff), U32(0x7f000001)]
+                addrs = [dst, src, nh_remote] + list(local_ips)
+                nat = [b_not(ex.binop('Eq', a_, sp_v, False)) for a_ in addrs for sp_v in specials]
+                nat += [b_not(ex.binop('Eq', dst, x, False)) for x in local_ips] + [b_not(ex.binop('Eq', nh_remote, x, False)) for x in local_ips]
+                nat += [b_not(ex.binop('Eq', local_ips[0], local_ips[1], False)), b_not(ex.binop('Eq', src, dst, False)), ex.binop('Ge', ttl, U8(3), False)]
+                sat_, m_ = ex.check_sat(b_and(*nat))
+                raise SpecViolation('task:sent-although-next-hop-unresolved', 'the next hop could not be resolved but the datagram was put on the wire anyway (a frame without a resolved destination is a broadcast)', m_ if sat_ else None)
             return 'forwarding task: next hop unresolved, dropped'
         if len(sends) != 1:
             raise SpecViolation('task:not-sent-exactly-once', f'the next hop was resolved but the forwarding task sent {len(sends)} frames')
